@@ -376,7 +376,7 @@ theorem labels_inv (p : Prog) (hwf : WF p) : ∀ (k : Nat), k ≤ p.length →
       | input => exact absurd hkind hin
       | conv =>
         obtain ⟨g, hg⟩ := tieLabels_eq_map ls (p.nd k)
-        have hstep : stepLabel ls (p.nd k) = ls.map g ++ [ls.length] := by simp [stepLabel, hkind, hg]
+        have hstep : stepLabel ls (p.nd k) = ls.map g ++ [siteLabel ls (p.nd k)] := by simp [stepLabel, hkind, hg]
         rw [hstep]
         refine ⟨by simp [hlen], fun v hv => ?_⟩
         by_cases hvk : v < k
@@ -387,7 +387,7 @@ theorem labels_inv (p : Prog) (hwf : WF p) : ∀ (k : Nat), k ≤ p.length →
                  fun hadd => by rw [hkind] at hadd; cases hadd⟩
       | linear =>
         obtain ⟨g, hg⟩ := tieLabels_eq_map ls (p.nd k)
-        have hstep : stepLabel ls (p.nd k) = ls.map g ++ [ls.length] := by simp [stepLabel, hkind, hg]
+        have hstep : stepLabel ls (p.nd k) = ls.map g ++ [siteLabel ls (p.nd k)] := by simp [stepLabel, hkind, hg]
         rw [hstep]
         refine ⟨by simp [hlen], fun v hv => ?_⟩
         by_cases hvk : v < k
@@ -535,6 +535,59 @@ theorem labels_tie (p : Prog) (hwf : WF p) (v : Nat) (hv : v < p.length) (hd : (
     (hl : (p.nd v).kind.isLayer = true) (ht : (p.nd v).ta < v) :
     p.lab (p.nd v).a = p.lab (p.nd v).ta := by
   have := labels_tie_inv p hwf p.length (le_refl _) v hv hd hl ht
+  simpa [Prog.lab, labels] using this
+
+/-! ### the call sites of one layer module share a component -/
+
+def SiteAt (p : Prog) (ls : List Nat) (v : Nat) : Prop :=
+  (p.nd v).dup = true → ((p.nd v).kind = .conv ∨ (p.nd v).kind = .linear) → (p.nd v).tf < v →
+    ls.getD v 0 = ls.getD (p.nd v).tf 0
+
+theorem site_preserved (p : Prog) (f : Nat → Nat) (ls : List Nat) (x v : Nat) (hv : v < ls.length)
+    (h : SiteAt p ls v) : SiteAt p (ls.map f ++ [x]) v := by
+  intro d l t
+  have ht : (p.nd v).tf < ls.length := by omega
+  have hlen : (ls.map f).length = ls.length := by simp
+  rw [getD_append_lt _ _ _ _ (by rw [hlen]; exact hv), getD_append_lt _ _ _ _ (by rw [hlen]; exact ht),
+      getD_map_lt f ls 0 0 _ hv, getD_map_lt f ls 0 0 _ ht, h d l t]
+
+theorem labels_site_inv (p : Prog) (hwf : WF p) : ∀ (k : Nat), k ≤ p.length →
+    ∀ v, v < k → SiteAt p ((p.take k).foldl stepLabel []) v := by
+  intro k
+  induction k with
+  | zero => intro _ v hv; omega
+  | succ k ih =>
+    intro hk v hv
+    have hk' : k < p.length := by omega
+    have hlen := (labels_inv p hwf k (by omega)).1
+    rw [take_succ_nd p k hk', List.foldl_append]
+    simp only [List.foldl_cons, List.foldl_nil]
+    generalize hls : (p.take k).foldl stepLabel [] = ls at hlen
+    have ih' := ih (by omega)
+    rw [hls] at ih'
+    by_cases hvk : v < k
+    · obtain ⟨f, x, hfx⟩ := stepLabel_shape ls (p.nd k)
+      rw [hfx]
+      exact site_preserved p f ls x v (by omega) (ih' v hvk)
+    · have : v = k := by omega
+      subst this
+      intro d l t
+      obtain ⟨g, hg⟩ := tieLabels_eq_map ls (p.nd v)
+      have htv : (p.nd v).tf < ls.length := by rw [hlen]; exact t
+      have hstep : stepLabel ls (p.nd v) = ls.map g ++ [(ls.map g).getD (p.nd v).tf 0] := by
+        rcases l with l | l <;> simp [stepLabel, l, siteLabel, d, hg]
+      rw [hstep]
+      have hl2 : (ls.map g).length = v := by simp [hlen]
+      have hnew := getD_append_len (ls.map g) ((ls.map g).getD (p.nd v).tf 0) 0
+      rw [hl2] at hnew
+      rw [hnew, getD_append_lt _ _ _ _ (by rw [hl2]; exact t)]
+
+/-- **the call sites of one layer module sit in one sharing component** (one output and one weight
+quantizer object for the module, whatever is summed with either call site included) -/
+theorem labels_site (p : Prog) (hwf : WF p) (v : Nat) (hv : v < p.length) (hd : (p.nd v).dup = true)
+    (hl : (p.nd v).kind = .conv ∨ (p.nd v).kind = .linear) (ht : (p.nd v).tf < v) :
+    p.lab v = p.lab (p.nd v).tf := by
+  have := labels_site_inv p hwf p.length (le_refl _) v hv hd hl ht
   simpa [Prog.lab, labels] using this
 
 /-- a tensor was last quantized either by the activation quantizer of its own sharing component or
